@@ -27,6 +27,7 @@ ASSUMPTIONS = [
 OK1 = "~ id: ok1 ~ $[*][yes()]"
 OK2 = '~ id: ok2 ~ $[*][@c = count() print("p $.csvpath.line_number ")]'
 OK3 = '~ id: ok3 ~ $[*][push("s", #0)]'
+EARLY = '~ id: early ~ $[0-1][push("s", #3)]'  # a member whose scan ends at record 1: in a breadth-first run it has finished before a later abort
 KINDS = {
     "argtype": ("@e = add(#1, 1)", ["g", "1", "1"], ["b", "x", "1"]),
     "pyexc": ("@e = mod(#1, #2)", ["g", "4", "2"], ["b", "4", "0"]),
@@ -58,6 +59,14 @@ def cases(tier, seed):
                                     yield {"gsize": gsize, "abidx": abidx, "kind": kind, "via": via, "n": n, "pos": pos, "method": m, "follow": follow}
 
 
+    # a member that finishes early (bounded scan) next to a later abort
+    for gsize in (2, 3):
+        for abidx in range(gsize):
+            for pos in range(4):
+                for m in groups.METHODS:
+                    yield {"gsize": gsize, "abidx": abidx, "kind": "argtype", "via": "config", "n": 4, "pos": pos, "method": m, "follow": "same", "early": True}
+
+
 def sample(case):
     return case
 
@@ -69,6 +78,8 @@ def run_case(case):
     gsize, abidx, kind, via, n, pos, method = (case[k] for k in ("gsize", "abidx", "kind", "via", "n", "pos", "method"))
     oks = [OK1, OK2, OK3]
     okids = ["ok1", "ok2", "ok3"]
+    if case.get("early"):
+        oks, okids = [EARLY, OK2, OK3], ["early", "ok2", "ok3"]
     members, ids = [], []
     j = 0
     for i in range(gsize):
@@ -156,6 +167,17 @@ def run_case(case):
                     )
                     if man is not None and man.get("completed") is not True:
                         bad("a member that finished earlier does not say completed", man.get("completed"), True)
+            if ident == "early" and not serial and pos >= 2:
+                # breadth-first: this member's scan ($[0-1]) ended before the record on which another member aborted
+                if man is None or man.get("completed") is not True:
+                    bad("a member that finished earlier (bounded scan) does not say completed", None if man is None else man.get("completed"), True)
+                vs = loaded.get("vars.json") or {}
+                if vs.get("s") != ["0", "1"]:
+                    bad("a member that finished earlier (bounded scan) lost or changed its variables", vs.get("s"), ["0", "1"])
+                meta = loaded.get("meta.json") or {}
+                ln = (meta.get("runtime_data") or {}).get("line_number")
+                if ln is not None and ln != 1:
+                    bad("a member that finished earlier (bounded scan) reports a later line position", ln, 1)
             states.append(run.h64((ident, ident == "ab", pos, method, sorted(os.listdir(mdir)))))
         rmp = os.path.join(rdir, "manifest.json")
         if not os.path.isfile(rmp):
